@@ -298,16 +298,9 @@ func (c *Ctx) RuleErr() (drop, handle *Result) {
 			carried[a] = true
 		}
 		handled, how, worst := false, "", ""
-		// (1) propagated: an alias is the error operand of a Return
-		for _, a := range aliases {
-			for _, r := range referrers(a) {
-				if ret, ok := r.(*ssa.Return); ok && retErrOperand(ret) == a {
-					handled, how = true, "propagated to the caller"
-				}
-			}
-		}
-		// (2) nil tests with a loud non-nil side
-		if !handled {
+		tests := 0
+		// (1) nil tests with a loud non-nil side
+		{
 			for _, a := range aliases {
 				for _, r := range referrers(a) {
 					bin, ok := r.(*ssa.BinOp)
@@ -319,6 +312,7 @@ func (c *Ctx) RuleErr() (drop, handle *Result) {
 						continue
 					}
 					for _, br := range condBranches(bin) {
+						tests++
 						succ := 1
 						if !trueMeansNil != br.neg { // cond true <=> non-nil (after negations)
 							succ = 0
@@ -363,6 +357,18 @@ func (c *Ctx) RuleErr() (drop, handle *Result) {
 				}
 				if handled {
 					break
+				}
+			}
+		}
+		// (2) never tested, and an alias is the error operand of a Return: propagated as it is.
+		// (When the error is tested, the non-nil side decides: returning nil there is a swallowed failure
+		// even if the variable is returned somewhere else.)
+		if !handled && tests == 0 {
+			for _, a := range aliases {
+				for _, r := range referrers(a) {
+					if ret, ok := r.(*ssa.Return); ok && retErrOperand(ret) == a {
+						handled, how = true, "propagated to the caller"
+					}
 				}
 			}
 		}
